@@ -650,12 +650,35 @@ func (a *CBOAnalyzer) walkNode(node *parser.Node, visitor func(*parser.Node) boo
 		a.walkNode(child, visitor)
 	}
 
+	for _, child := range node.Keywords {
+		a.walkNode(child, visitor)
+	}
+
+	// else/elif branches, finally bodies and exception handlers hold code too
+	for _, child := range node.Orelse {
+		a.walkNode(child, visitor)
+	}
+
+	for _, child := range node.Finalbody {
+		a.walkNode(child, visitor)
+	}
+
+	for _, child := range node.Handlers {
+		a.walkNode(child, visitor)
+	}
+
 	// Also traverse Value field if it contains a Node
 	if node.Value != nil {
 		if valueNode, ok := node.Value.(*parser.Node); ok {
 			a.walkNode(valueNode, visitor)
 		}
 	}
+
+	// Operands, conditions and iterables
+	a.walkNode(node.Left, visitor)
+	a.walkNode(node.Right, visitor)
+	a.walkNode(node.Test, visitor)
+	a.walkNode(node.Iter, visitor)
 }
 
 // inferObjectType tries to infer the type of an object from context
